@@ -81,6 +81,10 @@ func (r Redirector) redirectAPI(w http.ResponseWriter, req *http.Request, ro aut
 		// Guard against Open Redirect: https://cwe.mitre.org/data/definitions/601.html
 		redir = ""
 	}
+	if !authboss.IsLocalRedirect(redir) {
+		// "//host", "/\\host", "https:host", "javascript:..." leave the site as well
+		redir = ""
+	}
 	if len(redir) != 0 && ro.FollowRedirParam {
 		path = redir
 	}
@@ -129,6 +133,10 @@ func (r Redirector) redirectNonAPI(w http.ResponseWriter, req *http.Request, ro 
 	redir := req.FormValue(r.FormValueName)
 	if strings.Contains(redir, "://") {
 		// Guard against Open Redirect: https://cwe.mitre.org/data/definitions/601.html
+		redir = ""
+	}
+	if !authboss.IsLocalRedirect(redir) {
+		// "//host", "/\\host", "https:host", "javascript:..." leave the site as well
 		redir = ""
 	}
 	if len(redir) != 0 && ro.FollowRedirParam {
